@@ -227,7 +227,7 @@ func errCoq(err error) string {
 	return "(Some EConn)"
 }
 
-const waitMax = 8 * time.Second
+const waitMax = 6 * time.Second // only quoted in messages: the waits use psx.Await (adaptive)
 
 type world struct {
 	c        Case
@@ -276,7 +276,7 @@ func (w *world) barrier() bool {
 	if !w.c.Resp2 {
 		w.publish(w.pubs[0], true, "sync", body)
 	}
-	ok := psx.WaitFor(waitMax, func() bool {
+	ok := psx.Await(func() bool {
 		for _, r := range w.recvs {
 			if !r.returned() && atomic.LoadInt64(&r.marker) < w.markerNo {
 				return false
@@ -318,7 +318,7 @@ func (w *world) start(op Op) {
 		})
 		close(r.done)
 	}()
-	if !psx.WaitFor(waitMax, func() bool { return atomic.LoadInt32(&r.subs) >= int32(len(op.Cs)) || r.returned() }) {
+	if !psx.Await(func() bool { return atomic.LoadInt32(&r.subs) >= int32(len(op.Cs)) || r.returned() }) {
 		w.fail("subscribe-stuck", "Receive %d was not confirmed within %v", r.id, waitMax)
 	}
 	w.mops = append(w.mops, obs.App("OStart", obs.N(uint64(op.R)), kindCoq(op.K), obs.ListOf(op.Cs, voc.B), obs.Bool(op.Ctx)))
@@ -383,7 +383,7 @@ func run(ci any) (res obs.Result) {
 				default:
 				}
 				want := "echo-" + strconv.Itoa(i)
-				ctx, cancel := context.WithTimeout(context.Background(), waitMax)
+				ctx, cancel := context.WithTimeout(context.Background(), psx.Patience())
 				got, err := w.cl.Do(ctx, w.cl.B().Echo().Message(want).Build()).ToString()
 				cancel()
 				if err != nil {
@@ -447,7 +447,7 @@ func run(ci any) (res obs.Result) {
 				}
 			}
 		case "unsub":
-			ctx, cancel := context.WithTimeout(context.Background(), waitMax)
+			ctx, cancel := context.WithTimeout(context.Background(), psx.Patience())
 			if err := w.cl.Do(ctx, unsubCmd(w.cl, op.K, op.Ch)).Error(); err != nil {
 				w.fail("unsubscribe-failed", "UNSUBSCRIBE %s: %v", op.Ch, err)
 			}
@@ -460,7 +460,7 @@ func run(ci any) (res obs.Result) {
 			}
 			r.endSeq, r.endKind = w.logLen()+1, "cancel"
 			r.cancel()
-			if !psx.WaitFor(waitMax, r.returned) {
+			if !psx.Await(r.returned) {
 				w.fail("cancel-stuck", "Receive %d did not return within %v of its context being cancelled", r.id, waitMax)
 			}
 			w.mops = append(w.mops, obs.App("OCancel", obs.N(uint64(op.R))))
@@ -489,7 +489,7 @@ func run(ci any) (res obs.Result) {
 			w.mops = append(w.mops, "(OClose EConn)")
 		}
 		for _, r := range w.recvs {
-			if !psx.WaitFor(waitMax, r.returned) {
+			if !psx.Await(r.returned) {
 				w.fail("end-stuck", "Receive %d did not return within %v of the %s", r.id, waitMax, c.End)
 			}
 		}
@@ -712,7 +712,7 @@ func runOverlap(c Case) (res obs.Result) {
 		_ = cl.Receive(ctxA, cl.B().Subscribe().Channel("x", "ua").Build(), func(m rueidis.PubSubMessage) { atomic.AddInt64(&aGot, 1) })
 		close(aDone)
 	}()
-	psx.WaitFor(waitMax, func() bool { return atomic.LoadInt32(&aSub) >= 2 })
+	psx.Await(func() bool { return atomic.LoadInt32(&aSub) >= 2 })
 	go func() {
 		_ = cl.Receive(context.Background(), cl.B().Subscribe().Channel("x", "ub").Build(), func(m rueidis.PubSubMessage) { atomic.AddInt64(&bGot, 1) })
 		close(bDone)
@@ -725,7 +725,7 @@ func runOverlap(c Case) (res obs.Result) {
 	time.Sleep(20 * time.Millisecond)
 	close(release)
 	// wait until the server has executed B's SUBSCRIBE (so that exactly c.Overlap messages were in flight before it)
-	psx.WaitFor(waitMax, func() bool {
+	psx.Await(func() bool {
 		for _, e := range s.LogCopy() {
 			if e.Argv[0] == "SUBSCRIBE" && len(e.Argv) == 3 && e.Argv[2] == "ub" {
 				return true
